@@ -1,7 +1,10 @@
 import Anysystem.Props.C13
+import Anysystem.Proofs.R4
 #print axioms Anysystem.C13_offered_timer_iff
 #print axioms Anysystem.C13_messages_first
 #print axioms Anysystem.C13_every_reduced_step_explored_partial
 #print axioms Anysystem.C13_blocked_cannot_overtake
 #print axioms Anysystem.C13_unblocked_feasible
 #print axioms Anysystem.C13_no_constraint_on_older
+#print axioms Anysystem.sim_step_refines_partial
+#print axioms Anysystem.popped_timer_unblocked
